@@ -318,7 +318,7 @@ func checkC18(c *Ctx, r *Report) {
 			for _, cl := range scalarCellsOf(s.Fn) {
 				written := false
 				viewInstrs(s.Fn, func(in ssa.Instruction) {
-					if c2, _, ok := cellStore(in); ok && c2 == cl {
+					if c2, _, ok := cellStoreView(s.Fn, in); ok && c2 == cl {
 						written = true
 					}
 				})
